@@ -28,6 +28,7 @@ def handle (inp impl : Json) : CaseResult :=
   let ok := !(jbool impl "panic") && jstr impl "err" == "" && ap != "" && ap == ak &&
     (!viaNew || (jstr impl "new_addr" == ak && jstr impl "new_id" == jstr impl "peerid"))
   { model := m, spec := ok,
-    why := if ok then "" else if jstr impl "err" != "" then "startup-error-for-valid-key"
+    why := if ok then "" else if jstr impl "err" == "honest-peer-refused" then "honest-node-refused-by-its-peer"
+      else if jstr impl "err" != "" then "startup-error-for-valid-key"
       else if ap != ak then "peer-identity-address-differs-from-key-address" else "service-identity-differs" }
 end Driver.C18
